@@ -328,6 +328,12 @@ def run(ctx):
                         same = int(lv) == int(g)
                     elif g is None or lv == "none":
                         same = (g is None) == (lv == "none")
+                        if not same:
+                            # a denominator that sits on the safe-denominator threshold to within rounding: pandas' pairwise sum and the
+                            # model's left fold may land on different sides of it (seen once in a thorough run: mean = 1e-3 exactly up to 1 ulp)
+                            den = got["iqr"] if f.startswith("pn") else got["mean_obs"]
+                            if den is not None and abs(abs(float(den)) - 1e-3) <= 1e-12:
+                                same = True
                     elif f in ("cvrmse", "cvrmse_adj", "nmae", "nmbe") and abs(float(got["mean_obs"])) <= 1e-3:
                         same = True     # ill-conditioned ratio over a ~zero mean (instances of finding C16-F1): only definedness compared
                     elif f in ("pnrmse", "pnrmse_adj") and abs(float(got["iqr"])) <= 1e-3:
